@@ -153,18 +153,48 @@ def _gen_reshape(rng):
     mode = rng.random()
     if mode < 0.4:
         fac[rng.randrange(len(fac))] = -1
-    elif mode < 0.55:
+    elif mode < 0.5:
         fac[rng.randrange(len(fac))] += 1          # wrong element count -> refused
-    elif mode < 0.65 and len(fac) >= 2:
+    elif mode < 0.58:
+        # target count a PROPER DIVISOR of the source count (drop a factor > 1) -> refused
+        big = [k for k, f in enumerate(fac) if f > 1]
+        if big:
+            k = rng.choice(big)
+            ds = [d for d in range(1, fac[k]) if fac[k] % d == 0]
+            fac[k] = rng.choice(ds)
+    elif mode < 0.64:
+        fac[rng.randrange(len(fac))] *= rng.randint(2, 3)     # a multiple -> refused
+    elif mode < 0.70 and len(fac) >= 2:
         fac[0] = -1; fac[1] = -1                   # two -1 -> refused
+    elif mode < 0.75:
+        fac[rng.randrange(len(fac))] = rng.choice([0, -2, -3])     # zero / negative extent -> refused
     return [s, fac]
 
 
+def _reshape_oracle(v):
+    """NumPy, except that an extent 0 or a negative extent other than -1 is refused (NumPy reads every negative
+    extent as "unknown"; the library documents -1 only, array/index/reshape.hpp)"""
+    if any(d == 0 or d < -1 for d in v[1]):
+        return 'nothing'
+    return _np_shape(lambda: np.empty(v[0], dtype=np.int8).reshape(v[1]).shape)
+
+
+# refused reshape requests, one list per class (every class is in the fixed quick sample under every kind assignment)
+RESHAPE_REFUSALS = {
+    'count-divisor': [[[12], [2, 3]], [[2, 3, 2], [4]], [[3, 4], [1, 1, 1]], [[2, 3, 4], [2, 6]]],
+    'count-multiple': [[[6], [3, 4]], [[2, 3], [12]]],
+    'count-coprime': [[[6], [5]], [[2, 3], [7, 1]]],
+    'minus1-not-dividing': [[[2, 3, 2], [5, -1]]],
+    'two-minus1': [[[6], [-1, -1]], [[2, 2], [-1, -1, 4]]],
+    'zero-extent': [[[6], [0, 6]], [[6], [0, -1]]],
+    'negative-extent': [[[6], [-2, 3]], [[2, 3], [-3, -2]]],
+}
+
 REFS['shape_reshape'] = Ref(
-    lambda v: _np_shape(lambda: np.empty(v[0], dtype=np.int8).reshape(v[1]).shape),
+    _reshape_oracle,
     lambda v: 'k9_reshape shape=%s newshape=%s' % (fmt(v[0]), fmt(v[1])),
     _gen_reshape,
-    fixed=[[[2, 3, 4], [4, -1]], [[12], [3, 4]], [[2, 3, 2], [5, -1]], [[6], [-1, -1]]])
+    fixed=[[[2, 3, 4], [4, -1]], [[12], [3, 4]], [[2, 3], [3, 2]], [[2, 3, 2], [12]]] + [r for l in RESHAPE_REFUSALS.values() for r in l])
 
 
 def _gen_transpose(rng):
@@ -198,6 +228,16 @@ def _bpartner(rng, s, spoil=False):
     return t
 
 
+def _both_orders(reqs):
+    """operand order must not matter: every request also with its operands swapped"""
+    out = []
+    for v in reqs:
+        for w in (v, [v[1], v[0]] + list(v[2:])):
+            if w not in out:
+                out.append(w)
+    return out
+
+
 def _gen_bshape(rng):
     s = rshape(rng, 1, 4, emax=4)
     t = _bpartner(rng, s, spoil=rng.random() < 0.2)
@@ -208,7 +248,10 @@ REFS['broadcast_shape'] = Ref(
     lambda v: _np_shape(lambda: np.broadcast_shapes(tuple(v[0]), tuple(v[1]))),
     lambda v: 'k9_broadcast_shape shapes=%s;%s' % (fmt(v[0]), fmt(v[1])),
     _gen_bshape,
-    fixed=[[[2, 1, 4], [3, 1]], [[2, 3, 4], [2, 1]], [[1], [3, 2]], [[4], [4]]])
+    fixed=_both_orders([[[2, 1, 4], [3, 1]], [[1], [3, 2]], [[4], [4]], [[1, 3], [2, 1]], [[3, 1, 2], [1, 4, 1]], [[1, 1], [2, 3]],
+                        [[2, 1], [2, 1, 3]], [[5, 1, 1], [1, 3]],
+                        # refused: mismatch in the last / a leading / a middle axis, next to axes that stretch
+                        [[2, 3, 4], [2, 1]], [[3], [4]], [[2, 3], [3, 3]], [[2, 1, 4], [3, 5]], [[1, 3], [2, 2]], [[2, 1, 3], [3, 1, 1]]]))
 
 
 def _gen_bshape3(rng):
@@ -220,7 +263,8 @@ REFS['broadcast_shape3'] = Ref(
     lambda v: _np_shape(lambda: np.broadcast_shapes(*[tuple(x) for x in v])),
     lambda v: 'k9_broadcast_shape shapes=%s' % ';'.join(fmt(x) for x in v),
     _gen_bshape3,
-    fixed=[[[2, 1, 4], [3, 1], [1]]])
+    fixed=[[[2, 1, 4], [3, 1], [1]], [[3, 1], [1], [2, 1, 4]], [[1, 3], [2, 1], [2, 1, 1]],
+           [[2, 1, 4], [3, 1], [5]], [[2], [3, 1], [3]], [[3], [1, 3], [2, 2]]])
 
 
 def _bto_oracle(v):
@@ -246,7 +290,9 @@ REFS['shape_broadcast_to'] = Ref(
     _bto_oracle,
     lambda v: 'k9_broadcast_to ashape=%s bshape=%s' % (fmt(v[0]), fmt(v[1])),
     _gen_bto,
-    fixed=[[[3, 1], [2, 3, 4]], [[3, 2], [2, 3, 4]], [[1], [5]], [[2, 3], [2, 3]]])
+    fixed=[[[3, 1], [2, 3, 4]], [[1], [5]], [[2, 3], [2, 3]], [[1, 1], [2, 3]], [[2, 1, 1], [2, 3, 4]],
+           # refused: extent mismatch, source rank above the target rank, target axis 1 under a source axis > 1
+           [[3, 2], [2, 3, 4]], [[2, 3], [3]], [[3], [1]], [[2, 3], [2, 4]], [[2, 1, 3], [3, 3]]])
 
 
 REFS['shape_tile'] = Ref(
@@ -338,7 +384,7 @@ REFS['normalize_axis'] = Ref(
     _na_oracle,
     lambda v: 'k9_normalize_axis axis=%s ndim=%d' % (fmt(v[0]), v[1]),
     _gen_na,
-    fixed=[[[-1, 0], 3], [[3, 0], 3], [[0, 1, 2], 3], [[-4], 3]])
+    fixed=[[[-1, 0], 3], [[0, 1, 2], 3], [[-3, -1], 3], [[3, 0], 3], [[-4], 3], [[0, 2], 2], [[1, -3], 2]])
 REFS['normalize_axis_s'] = Ref(
     _na_oracle,
     lambda v: 'k9_normalize_axis scalar=1 axis=%d ndim=%d' % (v[0], v[1]),
@@ -361,7 +407,9 @@ REFS['shape_concatenate'] = Ref(
     lambda v: _np_shape(lambda: np.concatenate((np.empty(v[0], dtype=np.int8), np.empty(v[1], dtype=np.int8)), axis=v[2]).shape),
     lambda v: 'k9_concatenate ashape=%s bshape=%s axis=%s' % (fmt(v[0]), fmt(v[1]), 'None' if v[2] is None else str(v[2])),
     _gen_cat,
-    fixed=[[[2, 3], [4, 3], 0], [[2, 3], [4, 3], None], [[2, 3], [4, 2], 0], [[2, 3, 2], [2, 1, 2], 1]])
+    fixed=[[[2, 3], [4, 3], 0], [[2, 3], [4, 3], None], [[2, 3, 2], [2, 1, 2], 1],
+           # refused: an extent differs off the joining axis
+           [[2, 3], [4, 2], 0], [[2, 3], [3, 3], 1], [[2, 3, 2], [2, 3, 3], 0]])
 
 
 def _pad_oracle(v):
@@ -376,8 +424,38 @@ REFS['shape_pad'] = Ref(
     _pad_oracle,
     lambda v: 'k9_pad shape=%s pad_width=%s' % (fmt(v[0]), fmt(v[1])),
     lambda rng: (lambda s: [s, [rng.randint(0, 2) for _ in range(2 * len(s) - (1 if rng.random() < 0.15 else 0))]])(rshape(rng, 1, 3, emax=4)),
-    fixed=[[[2, 3], [0, 2, 1, 0]], [[2, 3], [0, 2, 1]], [[4], [1, 1]]])
+    fixed=[[[2, 3], [0, 2, 1, 0]], [[4], [1, 1]], [[2, 3], [0, 2, 1]], [[2, 3], [0, 2, 1, 0, 1]], [[4], [1]]])
 
+
+def _matmul_oracle(v):
+    a, b = v
+    if len(a) < 2 or len(b) < 2:
+        return 'nothing'
+    return _np_shape(lambda: np.matmul(np.empty(a, dtype=np.int8), np.empty(b, dtype=np.int8)).shape)
+
+
+def _gen_matmul_shape(rng):
+    m, k, n = rng.randint(1, 4), rng.randint(1, 4), rng.randint(1, 4)
+    batch = rshape(rng, 0, 2, emax=3)
+    ba = _bpartner(rng, batch) if batch else []
+    a, b = ba + [m, k], batch + [k, n]
+    if rng.random() < 0.5:
+        a, b = batch + [m, k], ba + [k, n]
+    r = rng.random()
+    if r < 0.15:
+        b[-2] += 1                                  # contraction mismatch -> refused
+    elif r < 0.25 and len(a) > 2 and len(b) > 2:
+        a[0] = b[len(b) - len(a)] + 1 if len(b) >= len(a) else a[0]      # batch mismatch (unless it stretches)
+    return [a, b]
+
+
+REFS['shape_matmul'] = Ref(
+    _matmul_oracle,
+    lambda v: 'k9_matmul ashape=%s bshape=%s' % (fmt(v[0]), fmt(v[1])),
+    _gen_matmul_shape,
+    fixed=[[[2, 3], [3, 4]], [[2, 1, 3, 4], [5, 4, 2]], [[3, 2, 2], [2, 3]], [[1, 2, 3], [4, 3, 1]],
+           # refused: contraction extents differ, batch extents neither equal nor 1
+           [[2, 3], [2, 2]], [[2, 3, 4], [3, 4, 5]], [[4, 2, 3], [1, 2, 2]]])
 
 
 def _gen_slice1(rng, n):
@@ -534,7 +612,9 @@ def kf_reshape_clipped_bounds(c):
     slack = False
     for an in lists:
         if r['argkind'][an] == 'cl':
-            slack |= any(hi != v for (lo, hi), v in zip(clipped_bounds(r, an), r['args'][an]))
+            # upper bound above the value, or a range reaching below 0 around a non-negative value (the resolver reads
+            # `min < 0` as "this slot is the -1 placeholder")
+            slack |= any(hi != v or (lo < 0 <= v) for (lo, hi), v in zip(clipped_bounds(r, an), r['args'][an]))
     return slack
 
 
